@@ -7,7 +7,11 @@ from pyp0f.database import Database
 from pyp0f.database.parse.utils import WILDCARD
 from pyp0f.database.records import TCPRecord
 from pyp0f.database.signatures import TCPSignature, WindowType
-from pyp0f.impersonate.utils import random_string, validate_for_impersonation
+from pyp0f.impersonate.utils import (
+    random_string,
+    tcp_payload,
+    validate_for_impersonation,
+)
 from pyp0f.net.layers.ip import IPV6
 from pyp0f.net.layers.tcp import TCPFlag, TCPOption
 from pyp0f.net.packet import Direction
@@ -264,16 +268,18 @@ def _impersonate_tcp(
 
 
 def _impersonate_payload(tcp: ScapyTCP, signature: TCPSignature) -> ScapyPacket:
+    payload = tcp_payload(tcp)
+
     if signature.payload_class == WILDCARD:  # Any payload, return existing payload
-        return tcp.payload
+        return payload
 
     if not signature.payload_class:  # Must remove existing payload
         return NoPayload()
 
     # Must have payload, generate random or return existing.
     return (
-        tcp.payload
-        if tcp.payload
+        payload
+        if payload
         else Raw(load=random_string(size=random.randint(1, 10)))
     )
 
